@@ -240,6 +240,19 @@ def scripts(tier, seed, scale=1):
         lines += ["eq take 100000", "eq more", "eq term"]
         finish(lines)
         out.append(("wrap:%s:%d" % (codec, k), lines))
+    # ---- stream 7: preview with a non-zero data position: the first message is delivered, the decoder consumes it on the next
+    # receive and then lacks work area for the zero pairs of the second frame in a full queue (MissingBuffer, no shift)
+    r = gen.rng(id, tier, seed, "peekpos")
+    for codec in ("cobs/zpe", "cobs/zpe+r"):
+        for n in ((4, 6) if tier == "quick" else (3, 4, 5, 6, 8)):
+            for dmax in ((8, 12) if tier == "quick" else (8, 10, 12, 16)):
+                lines = new_lines(codec, 64, 0, dmax, r.randrange(dmax + 1), r.randrange(16))
+                write_msg(r, lines, [7], grow=True)
+                write_msg(r, lines, [1, 0, 0] * n, grow=True)
+                lines += ["eq take 100000", "dq wire all", "dq recv", "dq msg", "dq recv", "dq peek 10", "dq peek 3 nodst", "dq peek 0",
+                          "dq grow %d" % (dmax + 16), "dq peek 10", "dq wire all", "dq drain"]
+                finish(lines)
+                out.append(("peekpos:%s:%d:%d" % (codec, n, dmax), lines))
     # ---- stream 6: message removal (mpt_queue_push(qu, k, NULL)) on wrapped sender rings
     r = gen.rng(id, tier, seed, "del")
     nd = (150 if tier == "quick" else 2500) * scale
@@ -296,7 +309,7 @@ def scripts(tier, seed, scale=1):
                     d = 1 if how == "bytes" else r.choice([1, 2, 3, 7, 20, 64, 65, 300]) if how == "rand" else 100000
                     lines += ["st deliver %d" % d, "st poll"] + (["st skip"] if mode != " wait" and r.random() < 0.1 else []) + ["st dispatch"]
                     n -= d
-        lines += ["st flush", "st deliver 1000000"] + (["st eof"] if r.random() < 0.3 else []) + ["st poll", "st dispatch", "st sync"]
+        lines += ["st flush"] + (["st mem"] if r.random() < 0.5 else []) + ["st deliver 1000000"] + (["st eof"] if r.random() < 0.3 else []) + ["st poll", "st dispatch", "st sync"]
         out.append(("glue%s:%s:%d" % (mode.replace(" ", "-"), codec, k), lines))
     # messages larger than the sender's socket buffer: the flush writes in parts, the write queue wraps around
     for k in range((3 if tier == "quick" else 30) * scale):
